@@ -188,6 +188,16 @@ func runResume(c *Case) (obs []CallObs, fatal string) {
 				obs[i].ArgsChanged = changed[i]
 			}
 		}
+		if d := spareWritten(); d != "" {
+			for i := len(obs) - 1; i >= 0; i-- {
+				if obs[i].Class != "hang" && obs[i].Class != "" {
+					if obs[i].ArgsChanged == "" {
+						obs[i].ArgsChanged = d
+					}
+					break
+				}
+			}
+		}
 	}()
 	for i := range c.Calls {
 		cl := c.Calls[i]
@@ -196,7 +206,7 @@ func runResume(c *Case) (obs []CallObs, fatal string) {
 		done := make(chan struct{})
 		var cerr error
 		var pan any
-		saved := append([]compose.Option(nil), opts[i]...)
+		saved := append([]compose.Option(nil), opts[i][:cap(opts[i])]...)
 		go func() {
 			defer close(done)
 			pan = lib.Recover(func() {
@@ -209,7 +219,7 @@ func runResume(c *Case) (obs []CallObs, fatal string) {
 			obs[i] = CallObs{Class: "hang"}
 			return obs, ""
 		}
-		changed[i] = optionsChanged(saved, opts[i])
+		changed[i] = optionsChanged(saved, opts[i][:cap(opts[i])])
 		if pan != nil {
 			obs[i] = CallObs{Class: "panic", Err: fmt.Sprint(pan)}
 			return obs, ""
